@@ -1,6 +1,7 @@
 import LitexProofs.Packet.Header
 import LitexProofs.Packet.Fifo
 import LitexProofs.Packet.Arbiter
+import LitexProofs.Packet.Fair
 import LitexProofs.Packet.RoundTrip
 /-
   C16 — Packet framing: headers round-trip and packets are never interleaved or torn.
@@ -173,6 +174,36 @@ example :
        ⟨[b false 0 false, b true 7 true], true⟩, ⟨[b true 2 true, b true 7 true], true⟩,
        ⟨[b false 0 false, b true 7 true], true⟩]
       = [(0, b true 1 false), (0, b true 2 true), (1, b true 7 true)] := by decide
+
+/-- **arbiter_fair** (round-robin bounded wait).  Take any state in which master `k` is waiting: it has
+    requested (its `ongoing` register is set — `arbiter_request_sticks`: one cycle with `valid` while not
+    granted sets it, and it stays set until `k`'s own last beat is transferred) and another master holds the
+    grant.  Then along every run in which `k` is still not granted, every change of the grant moves the
+    round-robin pointer strictly closer to `k`:
+        (number of grant changes) + dist(final grant, k) ≤ dist(initial grant, k) ≤ n − 1,
+    so at most `n − 2` other masters are served before `k`, whatever the other masters and the slave do. -/
+theorem arbiter_fair (n : Nat) (hn : 2 ≤ n) (k : Nat) (hk : k < n) (ins : List ArbIn) (s : ArbState)
+    (hg : s.grant < n) (hgk : s.grant ≠ k) (hw : s.ongoing.getD k false = true)
+    (hng : arbNeverGranted n k s ins) :
+    arbChanges n s ins + RoundRobin.dist n ((arbiter n).runFrom s ins).grant k ≤ RoundRobin.dist n s.grant k ∧
+    RoundRobin.dist n s.grant k < n :=
+  ⟨arbiter_wait_bound n hn k hk ins s hg hgk hw hng, Nat.mod_lt _ (by omega)⟩
+
+/-- A request made while another master is granted is remembered (`Status.ongoing`). -/
+theorem arbiter_request_remembered (n : Nat) (s : ArbState) (i : ArbIn) (k : Nat) (hk : k < n)
+    (hgk : s.grant ≠ k) (hv : (i.masters.getD k Beat.idle).valid = true) :
+    ((arbiter n).next s i).ongoing.getD k false = true :=
+  arbiter_request_sticks n s i k hk (by rw [arbRequest_not_granted s i k hgk, hv]; rfl)
+
+/-- Non-vacuity: three masters, master 2 waits while master 0 finishes and master 1 is served (one grant change,
+    distance 2 → 1), then it gets the grant. -/
+example :
+    let b (v : Bool) (l : Bool) : Beat := ⟨v, 0, l⟩
+    let i : ArbIn := ⟨[b true true, b true true, b true true], true⟩
+    let s1 := (arbiter 3).next (arbiter 3).init i
+    s1.grant = 1 ∧ s1.ongoing.getD 2 false = true ∧ arbNeverGranted 3 2 (arbiter 3).init [i] ∧
+    arbChanges 3 (arbiter 3).init [i] = 1 ∧ ((arbiter 3).runFrom s1 [i]).grant = 2 := by
+  refine ⟨by decide, by decide, ⟨by decide, trivial⟩, by decide, by decide⟩
 
 /-- **dispatcher_atomic**: for every input sequence, the destination of a packet is the slave addressed by the
     `sel` input in the cycle in which its first beat is transferred (no slave if `sel` addresses none: the
